@@ -47,6 +47,11 @@ theorem ev_client_connect_tie : Generated.ev_client_connect = PinnedMpx.ev_clien
 theorem ev_client_connect1_tie : Generated.ev_client_connect1 = PinnedMpx.ev_client_connect1 := by decide
 theorem ev_client_connectRecover_tie : Generated.ev_client_connectRecover = PinnedMpx.ev_client_connectRecover := by decide
 theorem ev_reconnectTimeout_tie : Generated.ev_reconnectTimeout = PinnedMpx.ev_reconnectTimeout := by decide
+theorem ev_lexer_Lex_tie : Generated.ev_lexer_Lex = PinnedMpx.ev_lexer_Lex := by decide
+theorem ev_lexer_new_tie : Generated.ev_lexer_new = PinnedMpx.ev_lexer_new := by decide
+theorem ev_lexer_Error_tie : Generated.ev_lexer_Error = PinnedMpx.ev_lexer_Error := by decide
+theorem ev_lexer_scanError_tie : Generated.ev_lexer_scanError = PinnedMpx.ev_lexer_scanError := by decide
+theorem ev_parser_parse_tie : Generated.ev_parser_parse = PinnedMpx.ev_parser_parse := by decide
 theorem ev_reader_readLine_tie : Generated.ev_reader_readLine = PinnedMpx.ev_reader_readLine := by decide
 theorem ev_reader_read_tie : Generated.ev_reader_read = PinnedMpx.ev_reader_read := by decide
 
